@@ -54,7 +54,8 @@ def _unpack_slice(value):
     if not ok:
         raise TranslatorError('expected struct.unpack(fmt, slice)[0], got %s' % ast.dump(value))
     fmt, sl = value.value.args
-    if not (isinstance(fmt, ast.BinOp) and isinstance(fmt.op, ast.Add) and _is_self_attr(fmt.left, '_endian')
+    if not (isinstance(fmt, ast.BinOp) and isinstance(fmt.op, ast.Add) and isinstance(fmt.left, ast.Attribute)
+            and isinstance(fmt.left.value, ast.Name) and fmt.left.value.id == 'self'
             and isinstance(fmt.right, ast.Constant) and fmt.right.value == 'I'):
         raise TranslatorError("expected the format self._endian + 'I', got %s" % ast.dump(fmt))
     return _slice_bounds(sl)
@@ -125,73 +126,77 @@ def _ast_facts(cls, found):
     src = textwrap.dedent(inspect.getsource(cls.dataReceived))
     fn = ast.parse(src).body[0]
     for node in ast.walk(fn):
-        # buffer_len >= N
-        if (isinstance(node, ast.Compare) and isinstance(node.left, ast.Name) and node.left.id == 'buffer_len'
-                and len(node.ops) == 1 and isinstance(node.ops[0], ast.GtE)
-                and isinstance(node.comparators[0], ast.Constant)):
-            found.setdefault('minHeader', []).append(_const_int(node.comparators[0]))
-        # self._buffer[:1] != b'l'
-        if (isinstance(node, ast.Compare) and isinstance(node.left, ast.Subscript)
-                and _is_self_attr(node.left.value, '_buffer') and len(node.ops) == 1
-                and isinstance(node.ops[0], (ast.NotEq, ast.Eq))):
-            sl = node.left.slice
-            c = node.comparators[0]
-            if not (isinstance(node.ops[0], ast.NotEq) and isinstance(sl, ast.Slice) and sl.lower is None
-                    and sl.step is None and _const_int(sl.upper) == 1
-                    and isinstance(c, ast.Constant) and isinstance(c.value, bytes) and len(c.value) == 1):
-                raise TranslatorError('byte-order test has an unexpected shape: %s' % ast.dump(node))
-            found.setdefault('littleMarker', []).append(c.value[0])
-        if isinstance(node, ast.Assign) and len(node.targets) == 1 and isinstance(node.targets[0], ast.Name):
-            name = node.targets[0].id
-            if name == 'body_len':
-                found.setdefault('bodyLenSlice', []).append(_unpack_slice(node.value))
-            elif name == 'harr_len':
-                found.setdefault('harrLenSlice', []).append(_unpack_slice(node.value))
-            elif name == 'padlen':
-                v = node.value
-                # hlen % M and (M - hlen % M) or 0
-                try:
-                    assert isinstance(v, ast.BoolOp) and isinstance(v.op, ast.Or) and len(v.values) == 2
-                    assert _const_int(v.values[1]) == 0
-                    a = v.values[0]
-                    assert isinstance(a, ast.BoolOp) and isinstance(a.op, ast.And) and len(a.values) == 2
-                    m1, sub = a.values
-                    assert isinstance(m1, ast.BinOp) and isinstance(m1.op, ast.Mod)
-                    assert isinstance(m1.left, ast.Name) and m1.left.id == 'hlen'
-                    M = _const_int(m1.right)
-                    assert isinstance(sub, ast.BinOp) and isinstance(sub.op, ast.Sub) and _const_int(sub.left) == M
-                    assert ast.dump(sub.right) == ast.dump(m1)
-                except AssertionError:
-                    raise TranslatorError('padlen has an unexpected shape: %s' % ast.dump(v))
-                found.setdefault('padModulus', []).append(M)
-            elif name == 'hlen':
-                v = node.value
-                if not (isinstance(v, ast.BinOp) and isinstance(v.op, ast.Add) and _is_self_attr(v.left, 'MSG_HDR_LEN')
-                        and isinstance(v.right, ast.Name) and v.right.id == 'harr_len'):
-                    raise TranslatorError('hlen has an unexpected shape: %s' % ast.dump(v))
-        # len(self._buffer) > (self.MAX_AUTH_LENGTH + len(self.authDelimiter) - K)
-        if (isinstance(node, ast.Compare) and isinstance(node.left, ast.Call)
-                and isinstance(node.left.func, ast.Name) and node.left.func.id == 'len'
-                and len(node.left.args) == 1 and _is_self_attr(node.left.args[0], '_buffer')):
-            c = node.comparators[0]
-            ok = (len(node.ops) == 1 and isinstance(node.ops[0], ast.Gt)
-                  and isinstance(c, ast.BinOp) and isinstance(c.op, ast.Sub)
-                  and isinstance(c.left, ast.BinOp) and isinstance(c.left.op, ast.Add)
-                  and _is_self_attr(c.left.left, 'MAX_AUTH_LENGTH')
-                  and isinstance(c.left.right, ast.Call) and isinstance(c.left.right.func, ast.Name)
-                  and c.left.right.func.id == 'len' and _is_self_attr(c.left.right.args[0], 'authDelimiter'))
-            if not ok:
-                raise TranslatorError('remainder length check has an unexpected shape: %s' % ast.dump(node))
-            found.setdefault('remainderSlack', []).append(_const_int(c.right))
-        # len(line) > self.MAX_AUTH_LENGTH
-        if (isinstance(node, ast.Compare) and isinstance(node.left, ast.Call)
-                and isinstance(node.left.func, ast.Name) and node.left.func.id == 'len'
-                and len(node.left.args) == 1 and isinstance(node.left.args[0], ast.Name)
-                and node.left.args[0].id == 'line'):
-            if not (len(node.ops) == 1 and isinstance(node.ops[0], ast.Gt)
-                    and _is_self_attr(node.comparators[0], 'MAX_AUTH_LENGTH')):
-                raise TranslatorError('line length check has an unexpected shape: %s' % ast.dump(node))
-            found.setdefault('lineCheck', []).append(1)
+        try:
+            # buffer_len >= N
+            if (isinstance(node, ast.Compare) and isinstance(node.left, ast.Name) and node.left.id == 'buffer_len'
+                    and len(node.ops) == 1 and isinstance(node.ops[0], ast.GtE)
+                    and isinstance(node.comparators[0], ast.Constant)):
+                found.setdefault('minHeader', []).append(_const_int(node.comparators[0]))
+            # self._buffer[:1] != b'l'
+            if (isinstance(node, ast.Compare) and isinstance(node.left, ast.Subscript)
+                    and _is_self_attr(node.left.value, '_buffer') and len(node.ops) == 1
+                    and isinstance(node.ops[0], (ast.NotEq, ast.Eq))):
+                sl = node.left.slice
+                c = node.comparators[0]
+                if not (isinstance(node.ops[0], ast.NotEq) and isinstance(sl, ast.Slice) and sl.lower is None
+                        and sl.step is None and _const_int(sl.upper) == 1
+                        and isinstance(c, ast.Constant) and isinstance(c.value, bytes) and len(c.value) == 1):
+                    raise TranslatorError('byte-order test has an unexpected shape: %s' % ast.dump(node))
+                found.setdefault('littleMarker', []).append(c.value[0])
+            if isinstance(node, ast.Assign) and len(node.targets) == 1 and isinstance(node.targets[0], ast.Name):
+                name = node.targets[0].id
+                if name == 'body_len':
+                    found.setdefault('bodyLenSlice', []).append(_unpack_slice(node.value))
+                elif name == 'harr_len':
+                    found.setdefault('harrLenSlice', []).append(_unpack_slice(node.value))
+                elif name == 'padlen':
+                    v = node.value
+                    # hlen % M and (M - hlen % M) or 0
+                    try:
+                        assert isinstance(v, ast.BoolOp) and isinstance(v.op, ast.Or) and len(v.values) == 2
+                        assert _const_int(v.values[1]) == 0
+                        a = v.values[0]
+                        assert isinstance(a, ast.BoolOp) and isinstance(a.op, ast.And) and len(a.values) == 2
+                        m1, sub = a.values
+                        assert isinstance(m1, ast.BinOp) and isinstance(m1.op, ast.Mod)
+                        assert isinstance(m1.left, ast.Name) and m1.left.id == 'hlen'
+                        M = _const_int(m1.right)
+                        assert isinstance(sub, ast.BinOp) and isinstance(sub.op, ast.Sub) and _const_int(sub.left) == M
+                        assert ast.dump(sub.right) == ast.dump(m1)
+                    except AssertionError:
+                        raise TranslatorError('padlen has an unexpected shape: %s' % ast.dump(v))
+                    found.setdefault('padModulus', []).append(M)
+                elif name == 'hlen':
+                    v = node.value
+                    if not (isinstance(v, ast.BinOp) and isinstance(v.op, ast.Add) and _is_self_attr(v.left, 'MSG_HDR_LEN')
+                            and isinstance(v.right, ast.Name) and v.right.id == 'harr_len'):
+                        raise TranslatorError('hlen has an unexpected shape: %s' % ast.dump(v))
+            # len(self._buffer) > (self.MAX_AUTH_LENGTH + len(self.authDelimiter) - K)
+            if (isinstance(node, ast.Compare) and isinstance(node.left, ast.Call)
+                    and isinstance(node.left.func, ast.Name) and node.left.func.id == 'len'
+                    and len(node.left.args) == 1 and _is_self_attr(node.left.args[0], '_buffer')):
+                c = node.comparators[0]
+                ok = (len(node.ops) == 1 and isinstance(node.ops[0], ast.Gt)
+                      and isinstance(c, ast.BinOp) and isinstance(c.op, ast.Sub)
+                      and isinstance(c.left, ast.BinOp) and isinstance(c.left.op, ast.Add)
+                      and _is_self_attr(c.left.left, 'MAX_AUTH_LENGTH')
+                      and isinstance(c.left.right, ast.Call) and isinstance(c.left.right.func, ast.Name)
+                      and c.left.right.func.id == 'len' and _is_self_attr(c.left.right.args[0], 'authDelimiter'))
+                if not ok:
+                    raise TranslatorError('remainder length check has an unexpected shape: %s' % ast.dump(node))
+                found.setdefault('remainderSlack', []).append(_const_int(c.right))
+            # len(line) > self.MAX_AUTH_LENGTH
+            if (isinstance(node, ast.Compare) and isinstance(node.left, ast.Call)
+                    and isinstance(node.left.func, ast.Name) and node.left.func.id == 'len'
+                    and len(node.left.args) == 1 and isinstance(node.left.args[0], ast.Name)
+                    and node.left.args[0].id == 'line'):
+                if not (len(node.ops) == 1 and isinstance(node.ops[0], ast.Gt)
+                        and _is_self_attr(node.comparators[0], 'MAX_AUTH_LENGTH')):
+                    raise TranslatorError('line length check has an unexpected shape: %s' % ast.dump(node))
+                found.setdefault('lineCheck', []).append(1)
+        except TranslatorError as e:
+            # this node has a shape the translator does not know: the constant it would have given is probed
+            found.setdefault('_unrecognised', []).append(str(e)[:100])
 
 
 # ----------------------------------------------------------------------------- behavioural fallback
@@ -316,9 +321,23 @@ def _probe(protocol, t):
             hh[0] = L
             hh[4] = 200
             p.dataReceived(bytes(hh[:n]))
-            if getattr(p, '_nextMsgLen', 0) != 0:       # only observable through the cache; AST otherwise
+            if getattr(p, '_nextMsgLen', 0) != 0:       # fast path: the cache shows when the length was computed
                 r['minHeader'] = n
                 break
+        if 'minHeader' not in r:
+            # behavioural: the smallest prefix of (a complete 16-byte message + filler) at which the code either
+            # delivers the message or trips over a header it computed from too few bytes
+            stream = bytes([L]) + bytes(15) + b'\xff' * 24
+            for n in range(1, 40):
+                p = _mk(protocol, True)
+                try:
+                    p.dataReceived(stream[:n])
+                except Exception:
+                    r['minHeader'] = n
+                    break
+                if p.got:
+                    r['minHeader'] = n
+                    break
     # line mode: remainder limit and line limit
     MAX, D = t['MAX_AUTH_LENGTH'], len(t['authDelimiter'])
 
